@@ -195,7 +195,12 @@ func Field(tag any, name string, args ...any) {
 	if len(args) > 0 {
 		if d, ok := args[len(args)-1].(func()); ok {
 			old := fn
-			fn = func() { d(); old() }
+			fn = func() {
+				if d != nil {
+					d()
+				}
+				old()
+			}
 			args = args[:len(args)-1]
 		}
 	}
